@@ -71,21 +71,22 @@ namespace fs
         for (auto& name: *this)
         {
             auto size = name.size();
-            if (size > 0)
-                if (name[0] == '.')
-                {
-                    if (size == 1)
-                    {   // the case for '.'
-                        continue;
-                    }
-                    else if (size == 2)
-                    {   // the case for '..'
-                        if (name[1] == '.')
-                            if (--level < 0)
-                                return false;
-                    }
-                    else ++level;
+            if (size == 0)
+                continue;
+            if (name[0] == '.')
+            {
+                if (size == 1)
+                {   // the case for '.'
+                    continue;
                 }
+                else if (size == 2 && name[1] == '.')
+                {   // the case for '..'
+                    if (--level < 0)
+                        return false;
+                    continue;
+                }
+            }
+            ++level;    // any other name goes one level deeper
         }
         return true;
     }
